@@ -70,6 +70,13 @@ TEXT_SUFFIX = {
  "C10": " In the full-stack configuration (about one run in five) what the real driver wrote into the chip model at every reception start (frequency, SF, bandwidth, coding rate) must agree with the RxConfig of the window / of the Class C listening in force, and an accepted configuration must actually lead to a listening chip.",
 }
 
+ENUM_MAC = "; plus, on every fifth run, the next case of a bounded-depth enumeration of histories over a 15-letter event alphabet in 108 configurations (complete to depth 2-3 in the quick tier and 3-4 in the thorough tier; evidence field coverage.systematic)"
+for _p in ("C04", "C05", "C06", "C07", "C08", "C09", "C10", "C11", "C12", "C20"):
+    TECH_SUFFIX[_p] = TECH_SUFFIX.get(_p, "") + ENUM_MAC
+TECH_SUFFIX["C14"] = TECH_SUFFIX.get("C14", "") + "; plus an exhaustive enumeration of undisturbed API call sequences of depth <= 3 (quick) / <= 4 (thorough) over a 26-letter alphabet on each of the five chip variants"
+TECH_SUFFIX["C05"] += "; the device's own uplinks reflected back at it are part of the adversary"
+
+
 def main():
     props = [json.loads(l)["id"] for l in open("/verif/properties.jsonl")]
     checks = []
